@@ -507,6 +507,31 @@ class Inventory:
                     detail = "driven by %s on a loop-local iterator; None arm exits" % callee_of(t).split(" as ")[0]
                     break
                 detail = "next() found but %s" % ("iterator is not a fresh local" if exits else "its None arm does not leave the loop")
+            if not ok:
+                # bounded monotone cursor:  a header phi t with the proved invariant t <= len(slice argument) that grows by
+                # at least 1 on every back edge  =>  at most len+1 iterations
+                from algebra import lin
+                iv = Intervals(fa, self.prog)
+                for t in fa.header_phis(h) if hasattr(fa, "header_phis") else []:
+                    iv.phi_invariant(t)
+                    if not any(dict(c[1]).get(t) == 1 for c in iv.inv_facts):
+                        continue
+                    grows = True
+                    n = 0
+                    for pb, v in fa.phi_operands(t):
+                        if pb not in body:
+                            continue
+                        n += 1
+                        lv, cv = lin(v)
+                        d = {t: 1}
+                        for p_, q_ in lv:
+                            d[p_] = d.get(p_, 0) - q_
+                        if not iv.prove_le(list(d.items()), 1 - cv, pb):
+                            grows = False
+                    if grows and n:
+                        ok = True
+                        detail = "cursor %s is bounded by the length of the slice argument (proved invariant) and grows by >= 1 on every back edge" % show(t, fa.names)
+                        break
             self.discharge("T-loop", f, "loop@%s" % _loop_desc(f, fa, h), ok, detail, f.term(h).get("line", f.loc["line"]), "rule")
 
 
